@@ -10,6 +10,7 @@ import Gotree.Lemmas.C14R2
 import Gotree.Lemmas.C14Avg
 import Gotree.Lemmas.C14Walk5
 import Gotree.Lemmas.C14Cut7
+import Gotree.Lemmas.C14Doc
 
 namespace Gotree.C14
 open Gotree
@@ -418,5 +419,51 @@ example : (row Metric.brlen.w exTipRoot "A").lookup "B" = some 3 ∧ (row Metric
     (row Metric.brlen.w exTipRoot "A").lookup "D" = some (5/2) := by decide +kernel
 example : (match Go.cutEdgesMaxLength (Go.G.ofT exTipRoot) 2 with | .ok b => b | _ => []) =
     [[("D", 0), ("A", 3)], [("B", 4)], [("C", 5)]] := by decide +kernel
+
+/-! ## Round 3 -/
+
+/- the branch weights are the documented defaults (`gotree matrix --help`: no length ↦ 0.0,
+   no support ↦ 1.0, metric none ↦ 1 per branch) -/
+example : Metric.brlen.w EdgeD.blank = 0 ∧ Metric.boots.w EdgeD.blank = 1 ∧ Metric.none.w EdgeD.blank = 1 ∧
+    Metric.brlen.w (mkE (3/2) 0) = 3/2 ∧ Metric.none.w (mkE (3/2) 0) = 1 := by decide +kernel
+
+/-- What the property says of the matrix, stated of the statement-level model (where a diagonal
+    write or a wrong sort could really occur): rows are the tips in increasing name order, the
+    matrix is symmetric with a zero diagonal, and it is the matrix the Spec describes. -/
+theorem matrixGo_props (mi : Int) (t : T) (hu : t.tipNames.Nodup) :
+    ∃ names M, Go.matrixGo mi t = some (names, M) ∧
+      names = sortNames t.tipNames ∧ names.Pairwise (· ≤ ·) ∧ names.Perm t.tipNames ∧
+      matrixOK (metricOf mi) t names M = true ∧
+      (∀ i j : Nat, (M.getD i []).getD j 0 = (M.getD j []).getD i 0) ∧
+      (∀ i : Nat, (M.getD i []).getD i 0 = 0) :=
+  ⟨_, _, matrixGo_eq_matrix mi t hu, rfl, sortNames_sorted _, sortNames_perm _,
+    matrix_eq_pathsum (metricOf mi) t hu, matrix_symmetric (metricOf mi) t hu, matrix_zero_diag (metricOf mi) t⟩
+
+/-- The oracle of round 3 (`cutSpecOK`: partition, no empty bag, and the documented meaning of
+    "shorter than the threshold", which leaves a branch WITHOUT length unspecified for
+    thresholds ≤ 0 instead of reading the code's sentinel) holds of the rose-tree model … -/
+theorem cut_meets_doc (thr : Rat) (t : T) (hu : t.tipNames.Nodup) : cutSpecOK thr t (cut thr t) = true :=
+  cutSpecOK_of_cutOK thr t _ (cutOK_holds thr t hu)
+
+/-- … and of the statement-level `CutEdgesMaxLength`. -/
+theorem cutGo_meets_doc (thr : Rat) (t : T) (hu : t.tipNames.Nodup) :
+    ∃ bags, Go.cutGo thr t = .ok bags ∧ cutSpecOK thr t bags = true := by
+  obtain ⟨bags, h1, _, h3⟩ := cutGo_is_cut thr t hu
+  exact ⟨bags, h1, cutSpecOK_of_cutOK thr t bags h3⟩
+
+/-- two tips, no lengths / zero lengths -/
+def exNoLen : T := .node ⟨"", []⟩ 0 [(EdgeD.blank, T.leaf "A"), (EdgeD.blank, T.leaf "B")]
+def exZeroLen : T := .node ⟨"", []⟩ 0 [(mkE 0 0, T.leaf "A"), (mkE 0 1, T.leaf "B")]
+
+/-- Where the documentation is silent and what the code (hence both models) does there: at a
+    threshold ≤ 0 a branch without length is unspecified (`none`); the code joins the tips
+    (−1 < 0), whereas it separates them when the lengths are written 0; for any threshold > 0
+    both are documented as joined.  Recorded, not judged: at threshold 0 the oracle puts no
+    constraint on the pair A, B of `exNoLen` (`none`), at threshold 1/8 it demands one bag. -/
+theorem cut_absent_unspecified :
+    pathShortDoc 0 exNoLen "A" "B" = none ∧ cut 0 exNoLen = [["A", "B"]] ∧
+    pathShortDoc 0 exZeroLen "A" "B" = some false ∧ cut 0 exZeroLen = [["A"], ["B"]] ∧
+    pathShortDoc (1/8) exNoLen "A" "B" = some true ∧ pathShortDoc (1/8) exZeroLen "A" "B" = some true ∧
+    sameBag (cut (1/8) exNoLen) "A" "B" = true ∧ sameBag [["A"], ["B"]] "A" "B" = false := by decide +kernel
 
 end Gotree.C14
